@@ -236,4 +236,161 @@ Section DapProofs.
     intros s0 s1 o tr s2 H Hall Hrun. eapply pause_overrun_le_1; eauto.
     simpl in H. destruct (sl s0); try discriminate. inversion H; subst; simpl. discriminate.
   Qed.
+
+  (* ------------------------------------------------------------------ breakpoints (repaired protocol) *)
+  Notation bp_ok := (bp_ok cpu pc step fin step_over step_out).
+  Notation disciplined := (disciplined cpu pc step fin step_over step_out).
+  Notation no_self_loop := (no_self_loop cpu pc step fin).
+  Notation in_step := (in_step cpu).
+
+  Definition K (s : st) (seen : bool) : Prop :=
+    G s /\
+    (ml s = MChecked -> hit (bps s) (pc (cp s)) = true -> seen = true) /\
+    (ml s <> MChecked -> lcp s = Some (pc (cp s)) -> in_step s = false -> hit (bps s) (pc (cp s)) = true -> seen = true) /\
+    (forall p, rs s = Stopped p -> in_step s = false -> seen = true) /\
+    ((in_step s = true \/ exists k, sl s = SStepExec k) -> exists p, rs s = Stopped p) /\
+    (ml s = MChecked -> lcp s = Some (pc (cp s))) /\
+    ((exists b, sl s = SSetBps b) -> rs s <> Running) /\
+    (rs s = Launching -> lcp s = None).
+
+  Lemma K_init : forall c, K (init c) false.
+  Proof.
+    intro c. unfold K. split; [apply G_init|]. unfold init, in_step; simpl.
+    repeat split; intros; try discriminate; auto;
+      try (destruct H as [H|[k H]]; discriminate); try (destruct H as [b H]; discriminate).
+  Qed.
+
+  Lemma opt_eqb_true : forall o p, opt_eqb o p = true -> o = Some p.
+  Proof. intros [q|] p H; simpl in H; try discriminate. apply Z.eqb_eq in H. subst; auto. Qed.
+
+  Lemma opt_eqb_some : forall p, opt_eqb (Some p) p = true.
+  Proof. intros; simpl; apply Z.eqb_refl. Qed.
+
+  Definition step_ok (a : action) (s : st) : Prop :=
+    match a with
+    | S_req (RStep _) => exists p, rs s = Stopped p
+    | S_req (RSetBps _) => rs s <> Running
+    | _ => True
+    end.
+
+  Definition violated (a : action) (s : st) (seen : bool) : bool :=
+    match a with
+    | M_execute => negb (fin (cp s)) && hit (bps s) (pc (cp s)) && negb seen
+    | _ => false
+    end.
+
+  Definition seen_next (a : action) (s s' : st) (seen : bool) : bool :=
+    if changes_cpu cpu fin a s then false
+    else if publishes_here cpu pc StateHeld a s s' then true else seen.
+
+  Lemma stopped_false : forall (r : rstate) (x : Z),
+    match r with Stopped q => (q =? x) && false | _ => false end = false.
+  Proof. destruct r; simpl; intros; auto using Bool.andb_false_r. Qed.
+
+  Lemma K_step : forall a s s' o seen,
+    no_self_loop -> K s seen -> step_ok a s -> step_act StateHeld a s = Some (s', o) ->
+    violated a s seen = false /\ K s' (seen_next a s s' seen).
+  Proof.
+    intros a s s' o seen NSL HK Hok H.
+    destruct HK as [HG [K1 [K2 [K3 [K4 [K5 [K6 K7]]]]]]].
+    pose proof (G_step a s s' o HG H) as HG'.
+    destruct HG as [G1 [G2 G3]].
+    destruct s as [rs0 cp0 bps0 conn0 chan0 ml0 lcp0 sl0].
+    unfold K, violated, seen_next, changes_cpu, publishes_here, in_step in *; simpl in *.
+    Ltac kcase K1 K2 K3 K4 K6 :=
+      repeat split; intros; auto; try discriminate; try congruence;
+      try (match goal with H : _ \/ _ |- _ => destruct H as [H|[? H]]; try discriminate; try congruence end);
+      try (match goal with H : exists _, _ |- _ => destruct H as [? H]; try discriminate; try congruence end);
+      try solve [apply K1; auto | apply K2; auto; discriminate | eapply K3; eauto | apply K4; auto | eapply K6; eauto | eauto].
+    destruct a; simpl in H; simpl in Hok.
+    - (* M_read_state *)
+      break_in H; inv_some; simpl; rewrite ?stopped_false, ?Bool.andb_false_r; (split; [reflexivity|]); (split; [exact HG'|]); kcase K1 K2 K3 K4 K6.
+    - (* M_check_bp *)
+      break_in H; inv_some.
+      assert (RR : rs0 = Running) by (apply G1; auto). subst rs0.
+      assert (NS : match sl0 with SPauseRead (RStep _) | SPausePublish (RStep _) _ => true | _ => false end = false).
+      { destruct (match sl0 with SPauseRead (RStep _) | SPausePublish (RStep _) _ => true | _ => false end) eqn:E; auto.
+        destruct K4 as [p Hp]; auto. discriminate. }
+      unfold do_check_bp in *; simpl in *.
+      destruct (opt_eqb lcp0 (pc cp0)) eqn:E; simpl in *.
+      + apply opt_eqb_true in E. (split; [reflexivity|]); (split; [exact HG'|]); kcase K1 K2 K3 K4 K6.
+      + destruct (hit bps0 (pc cp0)) eqn:Eh; simpl in *; rewrite ?Z.eqb_refl; simpl;
+          (split; [reflexivity|]); (split; [exact HG'|]); kcase K1 K2 K3 K4 K6.
+    - (* M_execute *)
+      break_in H; inv_some.
+      assert (RR : rs0 = Running) by (apply G1; auto). subst rs0.
+      unfold do_execute in *; simpl in *.
+      destruct (fin cp0) eqn:Ef; simpl in *.
+      + (split; [reflexivity|]); (split; [exact HG'|]); kcase K1 K2 K3 K4 K6.
+      + split.
+        { destruct (hit bps0 (pc cp0)) eqn:Eh; simpl; auto. rewrite K1; auto. }
+        (split; [exact HG'|]); kcase K1 K2 K3 K4 K6.
+        exfalso. apply (NSL cp0 Ef). rewrite K5 in *; auto. congruence.
+    - (* S_req *) 
+      break_in H; inv_some; destruct r; simpl in *; rewrite ?stopped_false, ?Bool.andb_false_r; (split; [reflexivity|]); (split; [exact HG'|]); kcase K1 K2 K3 K4 K6.
+    - break_in H; inv_some; simpl; rewrite ?stopped_false, ?Bool.andb_false_r; (split; [reflexivity|]); (split; [exact HG'|]); kcase K1 K2 K3 K4 K6.
+    - break_in H; inv_some; simpl; rewrite ?stopped_false, ?Bool.andb_false_r; (split; [reflexivity|]); (split; [exact HG'|]); kcase K1 K2 K3 K4 K6.
+    - (* S_set_bps *)
+      break_in H; inv_some; simpl; rewrite ?stopped_false, ?Bool.andb_false_r; (split; [reflexivity|]); (split; [exact HG'|]).
+      assert (NR : rs0 <> Running) by (apply K6; eauto).
+      kcase K1 K2 K3 K4 K6; try solve [exfalso; apply NR; apply G1; auto];
+        (destruct rs0; try congruence; [rewrite K7 in *; auto; discriminate | eapply K3; eauto]).
+    - break_in H; inv_some; simpl; rewrite ?stopped_false, ?Bool.andb_false_r; (split; [reflexivity|]); (split; [exact HG'|]); kcase K1 K2 K3 K4 K6.
+    - break_in H; inv_some; simpl; rewrite ?stopped_false, ?Bool.andb_false_r; (split; [reflexivity|]); (split; [exact HG'|]); kcase K1 K2 K3 K4 K6.
+    - break_in H; inv_some; simpl; rewrite ?stopped_false, ?Bool.andb_false_r; (split; [reflexivity|]); (split; [exact HG'|]); kcase K1 K2 K3 K4 K6.
+    - break_in H; inv_some; simpl; rewrite ?stopped_false, ?Bool.andb_false_r; (split; [reflexivity|]); (split; [exact HG'|]); kcase K1 K2 K3 K4 K6.
+    - break_in H; inv_some; simpl; rewrite ?stopped_false, ?Bool.andb_false_r; (split; [reflexivity|]); (split; [exact HG'|]); kcase K1 K2 K3 K4 K6.
+    - (* S_step_exec *)
+      break_in H; inv_some; simpl; (split; [reflexivity|]); (split; [exact HG'|]).
+      assert (ST : exists p, rs0 = Stopped p) by (apply K4; right; eauto).
+      destruct ST as [p0 ST]. subst rs0.
+      kcase K1 K2 K3 K4 K6; try solve [exfalso; assert (Stopped p0 = Running) by (apply G1; auto); discriminate].
+    - (* S_pause_read_pc *)
+      break_in H; inv_some; simpl; rewrite ?Z.eqb_refl; simpl; (split; [reflexivity|]); (split; [exact HG'|]);
+        kcase K1 K2 K3 K4 K6.
+    - (* S_pause_publish *)
+      break_in H; inv_some. exfalso. eapply G3; eauto.
+    - break_in H; inv_some; simpl; rewrite ?stopped_false, ?Bool.andb_false_r; (split; [reflexivity|]); (split; [exact HG'|]); kcase K1 K2 K3 K4 K6.
+    - break_in H; inv_some; simpl; rewrite ?stopped_false, ?Bool.andb_false_r; (split; [reflexivity|]); (split; [exact HG'|]); kcase K1 K2 K3 K4 K6.
+  Qed.
+
+  Lemma bp_run : forall tr s seen,
+    no_self_loop -> K s seen -> disciplined StateHeld tr s = true -> bp_ok StateHeld tr s seen = true.
+  Proof.
+    induction tr; simpl; intros s seen NSL HK HD; auto.
+    destruct (step_act StateHeld a s) as [[s1 o]|] eqn:E; auto.
+    assert (Hok : step_ok a s).
+    { unfold step_ok. destruct a; auto. destruct r; auto.
+      - destruct (rs s); try discriminate. eauto.
+      - destruct (rs s); try discriminate; congruence. }
+    destruct (K_step a s s1 o seen NSL HK Hok E) as [V HK'].
+    assert (HD' : disciplined StateHeld tr s1 = true).
+    { destruct a; auto. destruct r; auto; destruct (rs s); auto; discriminate. }
+    unfold violated in V. unfold seen_next in HK'.
+    apply andb_true_intro. split.
+    - destruct a; auto. rewrite V. reflexivity.
+    - apply IHtr; auto.
+  Qed.
+
+  Theorem bp_no_overrun : forall c0 tr,
+    no_self_loop -> disciplined StateHeld tr (init c0) = true -> bp_ok StateHeld tr (init c0) false = true.
+  Proof. intros. apply bp_run; auto. apply K_init. Qed.
 End DapProofs.
+
+(* a one-instruction loop (`hang: jmp hang`) with a breakpoint on it: after the first stop and `continue`, the loop
+   instruction executes again and again without another stop -- last_checked_pc never changes.  CPU: pc constant,
+   the state counts executed instructions. *)
+Definition self_loop_schedule : list action :=
+  [S_req (RSetBps [(7, 8)]); S_set_bps; S_req RConfigDone; S_start;
+   M_read_state; M_check_bp; S_event; S_req RContinue; S_resume;
+   M_read_state; M_check_bp; M_execute; M_read_state; M_check_bp; M_execute].
+
+Theorem bp_self_loop_refuted :
+  exists (cpu : Type) (pc : cpu -> Z) (step : cpu -> cpu) (fin : cpu -> bool) (so sout : cpu -> cpu) (c0 : cpu),
+    disciplined cpu pc step fin so sout StateHeld self_loop_schedule (init c0) = true /\
+    run cpu pc step fin so sout StateHeld self_loop_schedule (init c0) <> None /\
+    bp_ok cpu pc step fin so sout StateHeld self_loop_schedule (init c0) false = false.
+Proof.
+  exists Z, (fun _ => 7), Z.succ, (fun _ => false), Z.succ, Z.succ, 0.
+  vm_compute. repeat split; discriminate.
+Qed.
